@@ -401,6 +401,9 @@ fn read_cv(c: &mut Ctx, phys: u64, records: u64, proto: &[Rec], what: &str) -> (
         let body = c.slice(pos, length as u64).unwrap_or(&[]);
         let mut pi = PacketInfo { logical: pos, kind, length, stream_lens: vec![] };
         if kind == 1 {
+            if body[1] & 0xFE != 0 {
+                c.p(format!("{what}: data packet at logical {pos} has reserved flag bits set ({:#04x})", body[1]));
+            }
             let count = le16(&body[4..6]) as usize;
             if count != proto.len() {
                 c.p(format!("{what}: data packet at logical {pos} has {count} streams, prototype has {}", proto.len()));
@@ -809,6 +812,21 @@ pub fn analyse(image: &[u8]) -> (Option<Decoded>, Vec<String>) {
             d.file.images.push(ImgRead { guid: string(&mut c, img, "guid"), meta, visual, projection });
         }
     }
+    // every element of the E57 namespace carries a known type attribute
+    fn walk(c: &mut Ctx, el: &Elem, depth: usize) {
+        if el.ns == E57_NS {
+            match el.attr("type") {
+                Some("Structure") | Some("Vector") | Some("String") | Some("Integer") | Some("ScaledInteger") | Some("Float") | Some("Blob") | Some("CompressedVector") => {}
+                other => c.p(format!("element <{}> has type attribute {other:?}", el.qname())),
+            }
+        }
+        if depth < 64 {
+            for ch in el.elems() {
+                walk(c, ch, depth + 1);
+            }
+        }
+    }
+    walk(&mut c, &root, 0);
     // sections and XML pairwise disjoint
     let mut r = c.ranges.clone();
     r.sort();
